@@ -944,6 +944,44 @@ pub fn fixed<S: USet>(e: &mut Eng<S>, profile: &str) {
         }
         crate::profiles::audit(e, 0, false);
     }
+    if profile == "core" || profile == "term" {
+        // long churn on ONE set whose size stays small: thousands of alternating inserts and removes over a small
+        // universe (tables are rebuilt, never shrunk; deletion by backward shift and placeholder re-selection are
+        // exercised far beyond what a 100-step history reaches)
+        let w = S::W as u64;
+        for (name, base, stride, uni) in [("tiny", 0u64, 1u64, 90u64), ("bitmap", 1000, 37, 80), ("plain", 1u64 << (w - 1), 7919, 70), ("mixed", 0, (1u64 << (w - 2)) / 61, 64)] {
+            e.begin(&format!("churn-{}", name));
+            e.op_new(0);
+            let steps = 6000;
+            for k in 0..steps {
+                let x = S::norm(base.wrapping_add(e.rng.below(uni).wrapping_mul(stride)));
+                let n = e.oracle[0].len();
+                let remove = if n > 40 { e.rng.chance(3, 4) } else if n < 8 { e.rng.chance(1, 5) } else { e.rng.chance(1, 2) };
+                if remove {
+                    // remove a present value most of the time
+                    let y = if n > 0 && e.rng.chance(4, 5) { *e.oracle[0].iter().nth(e.rng.below(n as u64) as usize).unwrap() } else { x };
+                    e.op_rem(0, y);
+                } else {
+                    e.op_ins(0, x);
+                }
+                if k % 400 == 399 {
+                    e.op_iter(0);
+                    e.op_obs(0);
+                    // a set extended from its own members, and combined with its own clone, is unchanged
+                    let own: Vec<u64> = e.oracle[0].iter().cloned().collect();
+                    e.op_extend(0, &own);
+                    e.op_clone(1, 0);
+                    e.op_binop(2, 0, 1, true, false);
+                    e.op_eq(0, 2);
+                    e.op_binop(3, 0, 1, false, false);
+                    e.op_obs(3);
+                }
+            }
+            for k in 0..4 {
+                e.op_drop(k);
+            }
+        }
+    }
     if profile == "iter" || profile == "core" {
         e.begin("corpus-D3-shortcuts");
         e.op_collect(0, &[0, 1, 2, 3, 4, 5, 6]);
